@@ -12,6 +12,7 @@ DRIVER = 'harness/deferred_drv.cpp'
 EXTRACT = 'Extract/DeferredExtract.v'
 ML = 'deferred_model'
 SANITIZE = False
+ENUM = True
 
 (DETACH, ASYNC, LOCK_SH, TRY_SH, TRY_SH_FOR, TRY_SH_UNTIL, READ, BOOL, RELEASE, LOAD, FUT_READY, FUT_GET) = range(12)
 SHARED_OPS = (LOCK_SH, TRY_SH, TRY_SH_FOR, TRY_SH_UNTIL)
